@@ -402,6 +402,10 @@ def check(ctx):
         if bad_:
             ctx.violation('C01.R12', rel, fe, Model.qual(fe), '%s: %s -- the bits written before the field are corrupted and the decoder reads another value' % bad_, stmt='bit field (append_bits)')
 
+    # DEFAULT elision compares cleaned BIT STRING values: what "cleaned" computes is decided by evaluation (shared with C03.R3)
+    from .C03 import clean_value_rule
+    clean_value_rule(ctx, 'C01.R3')
+
     # ---- R13: the text of the time types has fields of fixed width on both sides.  strptime('%Y') reads four digits, but strftime('%Y') writes the year unpadded
     #      with glibc (year 999 -> '999'): a formatting directive whose width depends on the platform must not produce encoded text.
     ctx.rule('C01.R13', 'time text is written with fixed-width fields: no strftime directive of platform-dependent width (%Y, %G, %C) on the encode side')
